@@ -104,6 +104,12 @@ pub struct OpOptions {
     pub real_k_max: u32,
     /// maximal number of output positions attacked / edited per input
     pub max_positions: usize,
+    /// seed-move attacks: number of assigned advice cells (sampled) that are perturbed, per input,
+    /// with a FREE instance; the public inputs the repaired assignment binds are then compared
+    /// with the reference (0 = off)
+    pub seed_cells: usize,
+    /// number of inputs per operation that get seed-move attacks
+    pub seed_inputs: usize,
     pub property: String,
 }
 
@@ -114,6 +120,8 @@ impl OpOptions {
             ars: Some(if thorough { ArsBudget::thorough() } else { ArsBudget::quick() }),
             real_k_max: 12,
             max_positions: if thorough { 64 } else { 6 },
+            seed_cells: if thorough { 400 } else { 48 },
+            seed_inputs: if thorough { 3 } else { 1 },
             property: property.to_string(),
         }
     }
@@ -128,6 +136,9 @@ pub struct OpStats {
     pub ars_nodes: u64,
     pub ars_candidates_wrong_output: u64,
     pub ars_candidates_same_output: u64,
+    pub seed_attacks: u64,
+    pub seed_candidates_same_statement: u64,
+    pub seed_candidates_other_inputs: u64,
 }
 
 fn hexf(f: &F) -> String {
@@ -238,7 +249,9 @@ pub fn check_op<O: OpSpec>(op: &O, inputs: &[O::In], opts: &OpOptions, seed: u64
         // --- honest run with a provisional instance, then read back what the circuit binds ---
         let provisional: Vec<F> = expected.clone().unwrap_or_default();
         let circuit = MidnightCircuit::new(&rel, Value::known(provisional.clone()), Value::known(input.clone()), Some(mbl));
-        let collected = catch_any(|| collect::<F, _>(k, &circuit, &[vec![], provisional.clone()], CollectOpts::default()));
+        let collected = catch_any(|| {
+            collect::<F, _>(k, &circuit, &[vec![], provisional.clone()], CollectOpts { with_values: true, record_trace: true })
+        });
         rep.eval();
         st.honest_runs += 1;
         let mut tables = match collected {
@@ -399,7 +412,7 @@ pub fn check_op<O: OpSpec>(op: &O, inputs: &[O::In], opts: &OpOptions, seed: u64
                                     rep.inconclusive(&format!("{name}: ARS candidate not confirmed by mock/real: mock={mock:?} real={real:?}"));
                                 }
                                 // restore the honest tables for the next target
-                                tables = match collect::<F, _>(k, &circuit, &[vec![], exp.clone()], CollectOpts::default()) {
+                                tables = match collect::<F, _>(k, &circuit, &[vec![], exp.clone()], CollectOpts { with_values: true, record_trace: true }) {
                                     Ok(t) => t,
                                     Err(_) => break,
                                 };
@@ -408,6 +421,62 @@ pub fn check_op<O: OpSpec>(op: &O, inputs: &[O::In], opts: &OpOptions, seed: u64
                     }
                 }
                 let _ = n_out;
+                // --- seed-move attacks with a free instance ---------------------------------
+                if let (Some(budget), true) = (&opts.ars, opts.seed_cells > 0 && ii < opts.seed_inputs && k <= opts.real_k_max) {
+                    use rand::seq::SliceRandom;
+                    let _ = budget;
+                    let small = ArsBudget {
+                        restarts: 2,
+                        nodes_per_restart: 3000,
+                        max_changed: 100_000,
+                    };
+                    let mut cells = tables.assigned_advice_cells();
+                    cells.shuffle(&mut rng);
+                    cells.truncate(opts.seed_cells);
+                    let honest_advice = tables.advice.clone();
+                    let honest_instance = tables.instance.clone();
+                    for cell in cells {
+                        st.seed_attacks += 1;
+                        rep.eval();
+                        let old = tables.advice[cell.0][cell.1];
+                        let (att, stats) = super::ars::attack_free(&mut tables, &[(cell, old + F::ONE)], &small, &mut rng);
+                        st.ars_nodes += stats.nodes;
+                        let Some(att) = att else { continue };
+                        let bound: Vec<F> = tables.instance[1][..exp.len()].to_vec();
+                        tables.advice = honest_advice.clone();
+                        tables.instance = honest_instance.clone();
+                        if bound == *exp {
+                            st.seed_candidates_same_statement += 1; // witness non-uniqueness
+                            continue;
+                        }
+                        if bound[..n_in] != exp[..n_in] {
+                            st.seed_candidates_other_inputs += 1; // a statement about other inputs
+                            continue;
+                        }
+                        let mock = mock_accepts(k, &rel, input, &bound, mbl, &att.changed);
+                        let real = if k <= opts.real_k_max { Some(real_accepts(k, &rel, input, &bound, &att.changed)) } else { None };
+                        let confirmed = matches!(mock, Ok(true)) && real.as_ref().map(|r| matches!(r, Ok(true))).unwrap_or(true);
+                        let w = json!({"op": name, "input": format!("{input:?}"), "k": k, "seed_cell": [cell.0, cell.1],
+                            "reference_outputs": exp[n_in..].iter().map(hexf).collect::<Vec<_>>(),
+                            "forged_outputs": bound[n_in..].iter().map(hexf).collect::<Vec<_>>(),
+                            "changed_cells": att.changed.iter().map(|((c, r), v)| json!([c, r, hexf(v)])).collect::<Vec<_>>(),
+                            "mock": format!("{mock:?}"), "real": format!("{real:?}")});
+                        if confirmed {
+                            rep.violation(
+                                &format!("{prop}/{name}/forged-output"),
+                                &format!(
+                                    "perturbing one advice cell and repairing the rest ({} changed cells) yields an accepted assignment whose outputs differ from the definition on the same inputs (MockProver accepts; real verifier: {:?})",
+                                    att.changed.len(),
+                                    real
+                                ),
+                                w,
+                            );
+                            break;
+                        } else {
+                            rep.inconclusive(&format!("{name}: seed-move candidate not confirmed by mock/real: mock={mock:?} real={real:?}"));
+                        }
+                    }
+                }
             }
         }
     }
@@ -415,6 +484,7 @@ pub fn check_op<O: OpSpec>(op: &O, inputs: &[O::In], opts: &OpOptions, seed: u64
     rep.count_n(&format!("{name}.edits"), st.edits);
     rep.count_n(&format!("{name}.ars_targets"), st.ars_targets);
     rep.count_n(&format!("{name}.ars_nodes"), st.ars_nodes);
+    rep.count_n(&format!("{name}.seed_attacks"), st.seed_attacks);
     st
 }
 
